@@ -10,6 +10,7 @@ from vf.checks import parserlevel as PL
 
 PROPERTY = "C05"
 LEVEL = "exploration"
+SHRINKABLE = True  # violating documents are minimised (ddmin) before the replay file is written
 BASELINE = "C05"
 REQUIRED_COUNTERS = ["parsed", "positions_checked"]
 ASSUMPTIONS = [
